@@ -303,7 +303,7 @@ func init() {
 		ID:        "C13",
 		Level:     "model_checking",
 		Technique: "exhaustive enumeration of client message sequences following a CopyInResponse x handler reading policies x column count / format x simple / extended mode on a real server; per-message replies and the chunks observed by the handler compared with a reference simulation of the COPY sub-protocol",
-		Rule:      "all sequences of length <= d over 9 letters {CopyData a / xyz\\n / empty, CopyDone, CopyFail, Flush, Sync, Query, unknown type} x 6 handler policies {drain, take0..2, fail after 1, keep reading after error} x {(1 column,text),(3 columns,binary)} x {simple, extended}, each followed by Sync + Query",
+		Rule:      "all sequences of length <= d over 9 letters {CopyData a / xyz\\n / empty, CopyDone, CopyFail, Flush, Sync, Query, unknown type} x 6 handler policies {drain, take0..2, fail after 1, keep reading after error} x {(1 column,text),(3 columns,binary)} x {simple, extended}, each followed by Sync + Query; payloads: all sequences of <= 2 CopyData payloads over 11 look-alike payloads (\\.\\n, \\N, NUL, 0xFF, a framed CopyDone ...) x {drain, take1} x {CopyDone, CopyFail}; extended: every Bind result-format section x both copy formats x 1 / 3 columns",
 		Assumptions: []string{
 			"a handler that keeps reading after the abort error is only required to produce exactly one ErrorResponse and one ReadyForQuery for the cycle (what it reads afterwards is not asserted)",
 			"treatment of Query / unknown messages while an extended batch is skipping after an error belongs to C06 and is not asserted",
@@ -323,7 +323,7 @@ func c13Depth(tier string) int {
 	return 4
 }
 
-func c13Run(mode, policy string, ncols int, binary bool, letters []cletter) explore.Result {
+func c13Run(mode, policy string, ncols int, binary bool, letters []cletter, rf ...int16) explore.Result {
 	var res explore.Result
 	rec := &script.Rec{Extra: copyHandler}
 	one, err := harness.StartOne(rec.ParseFn())
@@ -345,7 +345,8 @@ func c13Run(mode, policy string, ncols int, binary bool, letters []cletter) expl
 	if mode == "simple" {
 		out, st = one.Step(pgproto.Query(prog))
 	} else {
-		out, _ = one.Step(pgproto.Cat(pgproto.Parse("", prog), pgproto.Bind("", "", nil, nil, nil)))
+		// (the Bind message's RESULT format codes concern DataRows only: the copy format is the handler's choice)
+		out, _ = one.Step(pgproto.Cat(pgproto.Parse("", prog), pgproto.Bind("", "", nil, nil, rf)))
 		if k := harness.Kinds(out); k != "12" {
 			res.Engine = "Parse/Bind failed: " + k
 			return res
@@ -450,7 +451,7 @@ func c13Run(mode, policy string, ncols int, binary bool, letters []cletter) expl
 	default:
 		res.Outcome = "completed"
 	}
-	res.Key = fmt.Sprint(mode, prog, c13Names(letters))
+	res.Key = fmt.Sprint(mode, prog, c13Names(letters), rf)
 	// model transitions
 	state := "copying"
 	for j, l := range full {
@@ -545,8 +546,66 @@ func c13Binary(emit explore.Emit) {
 	}
 }
 
+// c13Payloads: CopyData payloads that look like something else (the text format's end-of-data marker, NULL
+// marker, line ends, NUL / 0xFF bytes, a framed message): payloads are opaque and reach the handler byte-exact.
+func c13Payloads() []cletter {
+	var out []cletter
+	for _, p := range []string{"\\.\n", "\\.", "\\.\r\n", "\\", ".\n", "\n", "\\N\n", "\x00", "\xff\xff", "c\x00\x00\x00\x04", "\\.\nrest\n"} {
+		out = append(out, cletter{fmt.Sprintf("CopyData(%q)", p), "data", p, pgproto.CopyData([]byte(p))})
+	}
+	return out
+}
+
 func c13Enumerate(tier string, emit explore.Emit) {
 	c13Binary(emit)
+	payloads := c13Payloads()
+	for _, mode := range []string{"simple", "extended"} {
+		for _, shape := range []struct {
+			n   int
+			bin bool
+		}{{1, false}, {3, true}} {
+			mode, shape := mode, shape
+			forShapes(len(payloads), 2, func(sh []int) {
+				if len(sh) == 0 {
+					return
+				}
+				for _, policy := range []string{"drain", "take1"} {
+					for _, end := range []int{1, 2} { // CopyDone / CopyFail
+						ls := make([]cletter, 0, len(sh)+2)
+						for _, s := range sh {
+							ls = append(ls, payloads[s])
+						}
+						ls = append(ls, cletter{"CopyData(tail)", "data", "tail", pgproto.CopyData([]byte("tail"))}, c13Letters()[end])
+						policy := policy
+						emit(explore.Case{Family: "payloads", Size: 20 + len(ls),
+							Desc: func() any {
+								return map[string]any{"mode": mode, "handler_policy": policy, "columns": shape.n, "binary": shape.bin, "after_copy_in_response": c13Names(ls)}
+							},
+							Run: func() explore.Result { return c13Run(mode, policy, shape.n, shape.bin, ls) }})
+					}
+				}
+			})
+		}
+	}
+	// extended protocol: every shape of the Bind message's result-format section x both copy formats
+	for _, ncols := range []int{1, 3} {
+		for _, bin := range []bool{false, true} {
+			for _, rf := range [][]int16{{0}, {1}, {0, 1, 0}, {1, 0, 1}, {1, 1, 1}, {0, 0, 0}} {
+				if len(rf) > 1 && len(rf) != ncols {
+					continue
+				}
+				for _, policy := range []string{"drain", "take0"} {
+					ncols, bin, rf, policy := ncols, bin, rf, policy
+					ls := []cletter{c13Letters()[0], c13Letters()[1]}
+					emit(explore.Case{Family: "bind-result-formats", Size: 10,
+						Desc: func() any {
+							return map[string]any{"mode": "extended", "handler_policy": policy, "columns": ncols, "copy_binary": bin, "bind_result_formats": rf}
+						},
+						Run: func() explore.Result { return c13Run("extended", policy, ncols, bin, ls, rf...) }})
+				}
+			}
+		}
+	}
 	letters := c13Letters()
 	for _, mode := range []string{"simple", "extended"} {
 		for _, policy := range c13Policies {
